@@ -49,7 +49,7 @@ class State:
 # ===========================================================================
 
 def h_peer_config(w, st, rec):
-    st.peer_cfg = {k: rec[k] for k in ("k", "slack", "y_as") if k in rec}
+    st.peer_cfg = {k: rec[k] for k in ("k", "slack", "y_as", "uniform") if k in rec}
     peer().reset(st.peer_cfg)
     return "ok:-", None
 
@@ -298,6 +298,7 @@ def check_sample(w, st, nid, net, rec, S, msgs):
                               {"forest": fid, "what": "forest used for prediction was not fitted on "
                                "(parents in increasing index order, variable) of one environment of this network",
                                "fitted_for_another_network": bool(other)}))
+    positions = {}      # (env, var) -> for every row, which of the weighted candidates was drawn
     for k in range(e):
         for i in range(p):
             pa = net["pa"][i]
@@ -332,6 +333,11 @@ def check_sample(w, st, nid, net, rec, S, msgs):
                             allowed[q] = set(fits[m[1]][3][:, 0][m[3][q] > 0].tolist())
                         if val in allowed[q]:
                             ok = True
+                            if peer().uniform and net["unique"][k]:
+                                candidates = np.where(m[3][q] > 0)[0]
+                                Ycol = fits[m[1]][3][:, 0]
+                                hit = [c for c, j in enumerate(candidates) if Ycol[j] == val]
+                                positions.setdefault((k, i), []).append((len(candidates), hit[0] if hit else -1))
                             break
                     if ok:
                         break
@@ -342,6 +348,24 @@ def check_sample(w, st, nid, net, rec, S, msgs):
                                             "synthetic parent values") if seen_row else
                                    "the forest was never queried with the final synthetic parent values of this row"}))
                     break
+    # 4b. the draws of two non-source variables are independent of one another (given their parents): with
+    #     equal weights on kk candidates, identical candidate positions in every row have probability kk**-n
+    for k in range(e):
+        nodes = [i for i in range(p) if len(positions.get((k, i), ())) == rows[k] and rows[k] > 0]
+        for a in range(len(nodes)):
+            for b in range(a + 1, len(nodes)):
+                pa_, pb_ = positions[(k, nodes[a])], positions[(k, nodes[b])]
+                kk = {c for c, _ in pa_} | {c for c, _ in pb_}
+                if len(kk) != 1 or min(kk) < 2 or any(h < 0 for _, h in pa_ + pb_):
+                    continue
+                kk = kk.pop()
+                if rows[k] * math.log2(kk) < 64:
+                    continue
+                w.probes["non_sources>=2.draw_independence_checkable"] += 1
+                if [h for _, h in pa_] == [h for _, h in pb_]:
+                    found.append(("non_source_draws_identical", site,
+                                  {"env": k, "vars": [nodes[a], nodes[b]], "n": rows[k], "candidates": kk,
+                                   "seed": rec.get("seed")}))
     return found
 
 
@@ -681,7 +705,8 @@ def gen_config(g):
     return {"length": g.randint(6, 30) if not big else g.randint(5, 10),
             "pmax": g.randint(1, 6) if not big else g.randint(9, 13), "big": big,
             "nbig": g.random() < 0.04, "nets": g.randint(1, 2) if not big else 1,
-            "peer": {"k": g.choice([1, 1, 2, 3, 4]), "slack": g.random() < 0.2},
+            "peer": (lambda kk: {"k": kk, "slack": g.random() < 0.2, "uniform": kk >= 2 and g.random() < 0.5})(
+                g.choice([1, 1, 2, 3, 4, 6])),
             "faults": faults, "fault_rate": g.choice([0.1, 0.2, 0.3]), "clients": g.randint(1, 3),
             "seeds": G.seed_alphabet(g)}
 
@@ -847,7 +872,7 @@ REQUIRED_PROBES = ["sources>=2.independence_checkable", "sources>=2.independence
                    "non_source.parents>=2", "equal_sized_environments", "seed0",
                    "seeded_pair.nontrivial", "seeded_pair.seed0", "seeded_pair.numpy_integer_seed", "seeded_pair.seed_sequence_object_reused", "seeded_pair.sep.global_reseed",
                    "seeded_pair.k>=2.non_source", "peer.k>=2.non_source", "peer_fault.fit", "verbose",
-                   "sample_after_scribble_input", "n:none", "n:int", "n:list", "sweep.peer_fault_positions", "sweep.alloc_fault_positions",
+                   "sample_after_scribble_input", "n:none", "n:int", "n:list", "sweep.peer_fault_positions", "sweep.alloc_fault_positions", "non_sources>=2.draw_independence_checkable",
                    "peer_fault.predict.raised", "data.non_contiguous_views", "data.fortran_order", "data.dtype:<i8",
                    "data.dtype:<f4"] + \
                   ["invalid:" + k for k in sorted(INVALID_NEW)] + ["invalid:" + k for k in sorted(INVALID_N)]
